@@ -348,6 +348,16 @@ func aperEncDomain(e *emitter, roundTrip bool) {
 			}
 		}
 	}
+	// 1e. long lists (see manyIEs)
+	{
+		counts := []int{4098}
+		if e.thorough() {
+			counts = []int{256, 4096, 4097, 4098, 9000, 16383}
+		}
+		for _, n := range counts {
+			emit("NGAPPDU", reflect.ValueOf(manyIEs(n)), false)
+		}
+	}
 	// 2. random PDUs, transfers and arbitrary types
 	for i := 0; i < e.n; i++ {
 		var name string
@@ -395,6 +405,27 @@ func safeMarshal(v reflect.Value, params string) (b []byte, err error) {
 	return aper.MarshalWithParams(v.Interface(), params)
 }
 
+// manyIEs: an NG SETUP REQUEST with n Default Paging DRX IEs (3-octet values; the codec does not look at duplicates)
+func manyIEs(n int) ngapType.NGAPPDU {
+	pdu := ngapType.NGAPPDU{Present: ngapType.NGAPPDUPresentInitiatingMessage}
+	im := &ngapType.InitiatingMessage{}
+	im.ProcedureCode.Value = ngapType.ProcedureCodeNGSetup
+	im.Criticality.Value = ngapType.CriticalityPresentReject
+	im.Value.Present = ngapType.InitiatingMessagePresentNGSetupRequest
+	m := &ngapType.NGSetupRequest{}
+	for i := 0; i < n; i++ {
+		ie := ngapType.NGSetupRequestIEs{}
+		ie.Id.Value = ngapType.ProtocolIEIDDefaultPagingDRX
+		ie.Criticality.Value = ngapType.CriticalityPresentIgnore
+		ie.Value.Present = ngapType.NGSetupRequestIEsPresentDefaultPagingDRX
+		ie.Value.DefaultPagingDRX = &ngapType.PagingDRX{Value: aper.Enumerated(i % 4)}
+		m.ProtocolIEs.List = append(m.ProtocolIEs.List, ie)
+	}
+	im.Value.NGSetupRequest = m
+	pdu.InitiatingMessage = im
+	return pdu
+}
+
 func aperDecDomain(e *emitter) {
 	g := newVgen(e.rng)
 	transfers := standaloneTypes()
@@ -404,6 +435,20 @@ func aperDecDomain(e *emitter) {
 			return
 		}
 		e.op("aperdec", name, paramTok(topParamString(name)), hx(b))
+	}
+	// long lists that are really there: an NG SETUP REQUEST whose ProtocolIE container (SIZE(0..65535)) holds thousands of
+	// (small) IEs; counts around 4096 and well above (growth strategies of the element slice, 12-bit counters)
+	{
+		counts := []int{4097, 4098, 5000}
+		if e.thorough() {
+			counts = []int{255, 256, 257, 1024, 2048, 4095, 4096, 4097, 4098, 5000, 9000, 16383, 16384, 20000}
+		}
+		for _, n := range counts {
+			if b, err := ngap.Encoder(manyIEs(n)); err == nil {
+				e.op("ngapdec", hx(b))
+				e.op("ngapdec", hx(b[:len(b)-2])) // the last IE cut short
+			}
+		}
 	}
 	// fragmented lengths: a few inputs whose encoding holds a string of 16K items or more (quick tier: up to 32K, the
 	// prefixes and corruptions of each make some thirty inputs of that size)
